@@ -480,11 +480,11 @@ func (in *wInst) rawDump() map[string]string {
 }
 
 type wResult struct {
-	ok   bool
-	err  error
-	keys []string // returned public keys (hex)
-	idx  []uint32
-	id   string
+	ok     bool
+	err    error
+	keys   []string // returned public keys (hex)
+	idx    []uint32
+	id     string
 	picked int // GenKey: seed index of the keystore that was used (-1 unknown)
 }
 
